@@ -10,4 +10,3 @@ func raceEnable()  {}
 
 // RaceErrors is the number of race reports so far in this process.
 func RaceErrors() int { return 0 }
-
